@@ -1,11 +1,463 @@
-//! (not built yet)
-use serde_json::Value;
-use vcore::Run;
+//! C03 — datagram payloads are never altered and the size contract is exact.
 
-pub fn run(run: &Run) {
-    run.inconclusive("check not built yet");
+use crate::common::*;
+use proptest::prelude::*;
+use serde::{Deserialize, Serialize};
+use serde_json::{json, Value};
+use std::collections::BTreeMap;
+use std::sync::Arc;
+use std::time::Duration;
+use vcore::{prop_search, Outcome, Run, Search};
+use wire::*;
+use wtransport::error::SendDatagramError;
+use wtransport::Connection;
+
+const RULE: &str = "case = runtime flavour x direction (wtransport -> wtransport, wtransport -> raw recorder, raw peer -> wtransport) x sender role x receiver's advertised max_datagram_frame_size L in {disabled, 0..16 exhaustively, 17..1500 random, 65535} x MTU discovery off x batch of 1..40 payloads with lengths in {0, 1, max-1, max, max+1, max+2, random} and random contents (some starting with a plausible quarter-id varint) x relay policy in {pass, 20% loss, reorder} x receive pace; hook level: datagram_write/read with session ids whose quarter id needs 1, 2, 4 and 8 bytes. Oracle: (1) received payloads form a sub-multiset of the sent ones, payload() == Deref, session id is the session's, the raw receiver sees exactly quarter-id || payload; (2) with m = max_datagram_size(): len <= m is never TooLarge, len > m always is; (3) max_datagram_size() never panics and is None or Some(m <= 65535) with an m-byte payload really accepted; (4) hook: read(write(id, p)) = (id, p). Non-trivial: a delivered datagram with >= 1 byte, or a size probe at max / max+1, or L <= 16; distinct = distinct case";
+
+#[derive(Clone, Debug, Serialize, Deserialize)]
+pub struct Case {
+    pub flavor: u8,
+    /// 0 wt -> wt, 1 wt -> raw, 2 raw -> wt
+    pub direction: u8,
+    pub sender_is_client: bool,
+    /// receiver's datagram receive buffer: None = datagrams disabled
+    pub l: Option<u32>,
+    /// (length selector, content seed): 0 => 0, 1 => 1, 2 => max-1, 3 => max, 4 => max+1, 5 => max+2, else random (value = length)
+    pub payloads: Vec<(u16, u8)>,
+    pub relay: u8,
+    pub slow_receiver: bool,
 }
 
-pub fn replay(_run: &Run, _doc: &Value) -> bool {
-    false
+pub fn case_strategy() -> impl Strategy<Value = Case> {
+    let l = prop_oneof![
+        1 => Just(None),
+        4 => (0u32..=16).prop_map(Some),
+        3 => (17u32..1500).prop_map(Some),
+        2 => Just(Some(65535u32)),
+        2 => Just(Some(1200u32)),
+    ];
+    (0u8..3, 0u8..3, any::<bool>(), l, proptest::collection::vec((prop_oneof![4 => 0u16..6, 3 => 6u16..1400], any::<u8>()), 1..40), prop_oneof![3 => Just(0u8), 1 => Just(1u8), 1 => Just(2u8)], any::<bool>())
+        .prop_map(|(flavor, direction, sender_is_client, l, payloads, relay, slow_receiver)| Case { flavor, direction, sender_is_client, l, payloads, relay, slow_receiver })
+}
+
+fn content(len: usize, seed: u8, idx: usize) -> Vec<u8> {
+    let mut v = payload(3000 + seed as u64 * 131 + idx as u64, len, &[]);
+    // a fraction of payloads begins with something that looks like a quarter stream id varint
+    if seed % 4 == 0 && len >= 2 {
+        v[0] = 0x40;
+        v[1] = seed;
+    }
+    v
+}
+
+async fn exec_async(case: Arc<Case>) -> CaseResult {
+    let recv_tuning = Tuning { datagram_receive_buffer: Some(case.l.map(|l| l as usize)), mtu_discovery_off: true, initial_rtt_ms: Some(10), ..Default::default() };
+    let send_tuning = Tuning { mtu_discovery_off: true, initial_rtt_ms: Some(10), datagram_send_buffer: Some(1 << 20), ..Default::default() };
+    let mut relay_keep: Option<Relay> = None;
+    let labels_l = match case.l {
+        None => "L:disabled",
+        Some(l) if l <= 16 => "L<=16",
+        Some(65535) => "L:65535",
+        _ => "L:mid",
+    };
+    // --- raw -> wt: unaltered delivery, session filter
+    if case.direction % 3 == 2 {
+        let (conn, raw_conn, session, _keep): (Connection, quinn::Connection, u64, Box<dyn std::any::Any + Send>) = if !case.sender_is_client {
+            // raw is the server, wt the client
+            match wt_client_vs_raw_server(&Tuning { mtu_discovery_off: true, ..Default::default() }, &send_tuning).await {
+                Ok(p) => (p.client.clone(), p.raw.conn.clone(), p.raw.session_id, Box::new(p)),
+                Err(e) => return CaseResult::Skip(e),
+            }
+        } else {
+            match raw_client_vs_wt_server(&Tuning { mtu_discovery_off: true, ..Default::default() }, &send_tuning).await {
+                Ok(p) => (p.server.clone(), p.raw.conn.clone(), p.raw.session_id, Box::new(p)),
+                Err(e) => return CaseResult::Skip(e),
+            }
+        };
+        let mut sent: BTreeMap<Vec<u8>, usize> = BTreeMap::new();
+        let recv_task = {
+            let conn = conn.clone();
+            let slow = case.slow_receiver;
+            tokio::spawn(async move {
+                let mut got: Vec<(Vec<u8>, Vec<u8>, u64)> = Vec::new();
+                loop {
+                    match tokio::time::timeout(Duration::from_millis(250), conn.receive_datagram()).await {
+                        Ok(Ok(d)) => {
+                            got.push((d.payload().to_vec(), d.to_vec(), d.session_id().into_u64()));
+                            if slow {
+                                tokio::time::sleep(Duration::from_millis(2)).await;
+                            }
+                        }
+                        _ => break,
+                    }
+                }
+                got
+            })
+        };
+        for (i, (sel, seed)) in case.payloads.iter().enumerate() {
+            let len = (*sel as usize).min(1100);
+            let p = content(len, *seed, i);
+            // own session, and occasionally a datagram for a session that does not exist
+            let target = if seed % 7 == 3 { session + 4 } else { session };
+            if raw_conn.send_datagram(refcodec::enc_datagram(target, &p).into()).is_ok() && target == session {
+                *sent.entry(p).or_insert(0) += 1;
+            }
+            if i % 8 == 7 {
+                tokio::time::sleep(Duration::from_millis(1)).await;
+            }
+        }
+        let got = match tokio::time::timeout(Duration::from_secs(10), recv_task).await {
+            Ok(Ok(g)) => g,
+            _ => return CaseResult::Timeout("receiver task did not finish".into()),
+        };
+        let mut delivered_nonempty = false;
+        let mut seen: BTreeMap<Vec<u8>, usize> = BTreeMap::new();
+        for (p, deref, sid) in &got {
+            if p != deref {
+                return viol("C03:accessors", "payload() and Deref disagree");
+            }
+            if *sid != session {
+                return viol("C03:session", format!("datagram delivered with session id {sid}, session is {session}"));
+            }
+            *seen.entry(p.clone()).or_insert(0) += 1;
+            if !p.is_empty() {
+                delivered_nonempty = true;
+            }
+        }
+        for (p, n) in &seen {
+            let s = sent.get(p).copied().unwrap_or(0);
+            if *n > s {
+                return viol("C03:altered", format!("received {n} datagram(s) with payload {} but the peer sent {s} such payload(s) for this session", short(p)));
+            }
+        }
+        return CaseResult::Pass { nontrivial: delivered_nonempty, labels: vec!["dir:raw-to-wt"] };
+    }
+    // --- wt sender
+    let (sender, receiver_wt, raw_side, session, _keep): (Connection, Option<Connection>, Option<quinn::Connection>, u64, Box<dyn std::any::Any + Send>) = if case.direction % 3 == 0 {
+        let (ts, tc) = if case.sender_is_client { (recv_tuning.clone(), send_tuning.clone()) } else { (send_tuning.clone(), recv_tuning.clone()) };
+        // optional relay between client and server
+        let server_ep = wt_server(&ts);
+        let addr = server_ep.local_addr().unwrap();
+        let target = if case.relay % 3 != 0 {
+            let r = Relay::start(addr, 99 + case.payloads.len() as u64).await;
+            let a = r.addr;
+            relay_keep = Some(r);
+            a
+        } else {
+            addr
+        };
+        let client_ep = wt_client(&tc);
+        let accept = async {
+            let incoming = server_ep.accept().await;
+            let req = incoming.await.map_err(|e| format!("incoming: {e}"))?;
+            req.accept().await.map_err(|e| format!("accept: {e}"))
+        };
+        let connect = async { client_ep.connect(url_for(target, "/")).await.map_err(|e| format!("connect: {e}")) };
+        let (s, c) = tokio::join!(accept, connect);
+        match (s, c) {
+            (Ok(s), Ok(c)) => {
+                let sid = c.session_id().into_u64();
+                if case.sender_is_client {
+                    (c.clone(), Some(s.clone()), None, sid, Box::new((server_ep, client_ep, s, c)))
+                } else {
+                    (s.clone(), Some(c.clone()), None, sid, Box::new((server_ep, client_ep, s, c)))
+                }
+            }
+            (Err(e), _) | (_, Err(e)) => return CaseResult::Skip(e),
+        }
+    } else if case.sender_is_client {
+        match wt_client_vs_raw_server(&send_tuning, &recv_tuning).await {
+            Ok(p) => (p.client.clone(), None, Some(p.raw.conn.clone()), p.raw.session_id, Box::new(p)),
+            Err(e) => return CaseResult::Skip(e),
+        }
+    } else {
+        match raw_client_vs_wt_server(&send_tuning, &recv_tuning).await {
+            Ok(p) => (p.server.clone(), None, Some(p.raw.conn.clone()), p.raw.session_id, Box::new(p)),
+            Err(e) => return CaseResult::Skip(e),
+        }
+    };
+    if let Some(r) = &relay_keep {
+        match case.relay % 3 {
+            1 => r.set_loss(13107),
+            2 => r.set_reorder(3, 15),
+            _ => {}
+        }
+    }
+    // (3) the maximum is never nonsensical
+    let m = match vcore::catch(|| sender.max_datagram_size()) {
+        Ok(m) => m,
+        Err(p) => return viol("C03:max-size:panic", format!("max_datagram_size() panicked with the peer advertising max_datagram_frame_size {:?}: {p}", case.l)),
+    };
+    if let Some(m) = m {
+        if m > 65535 {
+            return viol("C03:max-size:nonsense", format!("max_datagram_size() = {m} with the peer advertising {:?}", case.l));
+        }
+    }
+    let quic_max = {
+        // the transport's own limit for the whole frame payload
+        #[allow(unused)]
+        let q: Option<usize> = None;
+        q
+    };
+    let _ = quic_max;
+    // start receiver
+    let recorder = raw_side.as_ref().map(Recorder::start);
+    let recv_task = receiver_wt.clone().map(|conn| {
+        let slow = case.slow_receiver;
+        tokio::spawn(async move {
+            let mut got: Vec<(Vec<u8>, Vec<u8>, u64)> = Vec::new();
+            loop {
+                match tokio::time::timeout(Duration::from_millis(300), conn.receive_datagram()).await {
+                    Ok(Ok(d)) => {
+                        got.push((d.payload().to_vec(), d.to_vec(), d.session_id().into_u64()));
+                        if slow {
+                            tokio::time::sleep(Duration::from_millis(2)).await;
+                        }
+                    }
+                    _ => break,
+                }
+            }
+            got
+        })
+    });
+    let mut sent: BTreeMap<Vec<u8>, usize> = BTreeMap::new();
+    let mut probed_boundary = false;
+    let mut conn_lost = false;
+    for (i, (sel, seed)) in case.payloads.iter().enumerate() {
+        let base = m.unwrap_or(0);
+        let len = match *sel {
+            0 => 0,
+            1 => 1,
+            2 => base.saturating_sub(1),
+            3 => base,
+            4 => base + 1,
+            5 => base + 2,
+            n => n as usize,
+        };
+        let p = content(len, *seed, i);
+        let res = match vcore::catch(|| sender.send_datagram(&p)) {
+            Ok(r) => r,
+            Err(pn) => return viol("C03:send:panic", format!("send_datagram({len} bytes) panicked: {pn}")),
+        };
+        if std::env::var("C03_DEBUG").is_ok() {
+            eprintln!("send #{i} len {len} -> {res:?}; max {:?}; close_reason {:?}", sender.max_datagram_size(), sender.quic_connection().close_reason());
+        }
+        if matches!(res, Err(SendDatagramError::NotConnected)) && sender.quic_connection().close_reason().is_some() {
+            // The connection is gone (quinn's receiver closes with "oversized datagram" when its own
+            // receive buffer is smaller than a datagram plus bookkeeping overhead): the size contract
+            // can no longer be observed; what was observed so far stands.
+            conn_lost = true;
+            break;
+        }
+        // the maximum may only change through MTU discovery, which is off
+        let m_now = sender.max_datagram_size();
+        if m_now != m {
+            return CaseResult::Skip(format!("max_datagram_size changed during the case ({m:?} -> {m_now:?})"));
+        }
+        match m {
+            None => {
+                if res.is_ok() {
+                    return viol("C03:contract:no-max-but-sent", format!("max_datagram_size() is None but a {len}-byte datagram was accepted"));
+                }
+            }
+            Some(m) => {
+                if len <= m && matches!(res, Err(SendDatagramError::TooLarge)) {
+                    return viol("C03:contract:refused", format!("payload of {len} bytes refused as too large although max_datagram_size() = {m} (peer advertises {:?})", case.l));
+                }
+                if len > m && !matches!(res, Err(SendDatagramError::TooLarge)) {
+                    return viol("C03:contract:accepted", format!("payload of {len} bytes was not refused as too large (result {:?}) although max_datagram_size() = {m} (peer advertises {:?})", res, case.l));
+                }
+                if len == m || len == m + 1 {
+                    probed_boundary = true;
+                }
+            }
+        }
+        if res.is_ok() {
+            *sent.entry(p).or_insert(0) += 1;
+        }
+        if i % 6 == 5 {
+            tokio::time::sleep(Duration::from_millis(1)).await;
+        }
+    }
+    // collect what arrived
+    let mut delivered_nonempty = false;
+    if let Some(t) = recv_task {
+        let got = match tokio::time::timeout(Duration::from_secs(15), t).await {
+            Ok(Ok(g)) => g,
+            _ => return CaseResult::Timeout("receiver task did not finish".into()),
+        };
+        let mut seen: BTreeMap<Vec<u8>, usize> = BTreeMap::new();
+        for (p, deref, sid) in &got {
+            if p != deref {
+                return viol("C03:accessors", "payload() and Deref disagree");
+            }
+            if *sid != session {
+                return viol("C03:session", format!("datagram delivered with session id {sid}, session is {session}"));
+            }
+            *seen.entry(p.clone()).or_insert(0) += 1;
+            if !p.is_empty() {
+                delivered_nonempty = true;
+            }
+        }
+        for (p, n) in &seen {
+            let s = sent.get(p).copied().unwrap_or(0);
+            if *n > s {
+                return viol("C03:altered", format!("received {n} datagram(s) with payload {} ({} bytes) but only {s} such payload(s) were sent", short(p), p.len()));
+            }
+        }
+    }
+    if let Some(rec) = recorder {
+        tokio::time::sleep(Duration::from_millis(60)).await;
+        rec.stop();
+        let (_, dgrams) = rec.snapshot();
+        let mut seen: BTreeMap<Vec<u8>, usize> = BTreeMap::new();
+        for d in &dgrams {
+            match refcodec::dec_datagram(d) {
+                Some((q, off)) => {
+                    if q * 4 != session {
+                        return viol("C03:wire:quarter-id", format!("datagram on the wire carries quarter stream id {q}, session is {session}"));
+                    }
+                    if off != refcodec::varint_len(q) {
+                        return viol("C03:wire:varint", "quarter stream id not in shortest form");
+                    }
+                    *seen.entry(d[off..].to_vec()).or_insert(0) += 1;
+                    if d.len() > off {
+                        delivered_nonempty = true;
+                    }
+                }
+                None => return viol("C03:wire:malformed", format!("datagram on the wire without a quarter stream id: {}", short(d))),
+            }
+        }
+        for (p, n) in &seen {
+            let s = sent.get(p).copied().unwrap_or(0);
+            if *n > s {
+                return viol("C03:wire:altered", format!("the peer received {n} datagram(s) with payload {} but only {s} were sent", short(p)));
+            }
+        }
+    }
+    let small_l = matches!(case.l, Some(l) if l <= 16);
+    let mut labels = vec![labels_l, if case.direction % 3 == 0 { "dir:wt-to-wt" } else { "dir:wt-to-raw" }];
+    if probed_boundary {
+        labels.push("probe:max/max+1");
+    }
+    if delivered_nonempty {
+        labels.push("delivered");
+    }
+    if relay_keep.is_some() {
+        labels.push("relay");
+    }
+    if conn_lost {
+        labels.push("conn-lost-by-transport");
+    }
+    CaseResult::Pass { nontrivial: delivered_nonempty || probed_boundary || small_l, labels }
+}
+
+pub fn exec(case: &Case) -> CaseResult {
+    let c = Arc::new(case.clone());
+    match run_on(case.flavor, Duration::from_secs(40), exec_async(c)) {
+        Some(r) => r,
+        None => CaseResult::Timeout("case did not finish in 40 s".into()),
+    }
+}
+
+/// Hook level: the library's own datagram codec with session ids of every quarter-id width.
+pub fn test_hook(session: u64, p: &[u8]) -> Result<(), (String, String)> {
+    use wtransport::proto::ids::{SessionId, StreamId};
+    let sid = SessionId::try_from_session_stream(StreamId::new(wtransport::VarInt::try_from_u64(session).unwrap())).unwrap();
+    let wire = wtransport::verif_hooks::datagram_write(sid, p);
+    let expect = refcodec::enc_datagram(session, p);
+    if wire[..] != expect[..] {
+        return Err(("C03:hook:encode".into(), format!("datagram_write(session {session}, {} bytes) = {}, expected {}", p.len(), short(&wire), short(&expect))));
+    }
+    let hs = wtransport::verif_hooks::datagram_header_size(sid);
+    if hs != refcodec::varint_len(session / 4) {
+        return Err(("C03:hook:header-size".into(), format!("header size {hs} for session {session}")));
+    }
+    match wtransport::verif_hooks::datagram_read(wire) {
+        Ok(d) => {
+            if d.session_id() != sid || d.payload()[..] != p[..] || &d[..] != p {
+                return Err(("C03:hook:decode".into(), format!("read(write(session {session}, {} bytes)) yields session {} and {} payload bytes: {}", p.len(), d.session_id().into_u64(), d.payload().len(), short(&d.payload()))));
+            }
+        }
+        Err(e) => return Err(("C03:hook:decode".into(), format!("read(write(..)) failed: {e:?}"))),
+    }
+    Ok(())
+}
+
+pub fn run(run: &Run) {
+    run.set_rule(RULE);
+    run.assume("MTU discovery is off so that the maximum datagram size cannot change between the query and the send");
+    run.assume("with max_datagram_size() == None every send must fail (no payload is 'no longer than the maximum')");
+    run.assume("when the transport itself tears the connection down during a case (quinn's receiver rejects any datagram if its receive buffer is smaller than the datagram plus ~32 bytes of bookkeeping) later sends are not judged");
+    let workers = run.workers();
+    prop_search(
+        run,
+        Search { check: "codec-hook", cases: run.tier.pick(60_000, 2_000_000), workers, max_shrink_iters: 2000 },
+        || (prop_oneof![0u64..64, 64u64..16384, 16384u64..(1 << 30), (1u64 << 30)..(1u64 << 60)].prop_map(|q| q * 4), proptest::collection::vec(any::<u8>(), 0..2000)),
+        |(s, p)| match vcore::catch(|| test_hook(*s, p)) {
+            Ok(Ok(())) => Outcome::pass(*s >= 256),
+            Ok(Err((a, b))) => Outcome::fail(a, b),
+            Err(pn) => Outcome::fail("C03:hook:panic", pn),
+        },
+        |(s, p)| json!({"session": s, "payload": vcore::hex(p)}),
+    );
+    // every small L deterministically, both roles, wt sender
+    for l in 0u32..=20 {
+        for sender_is_client in [true, false] {
+            for direction in [0u8, 1] {
+                let case = Case { flavor: (l % 3) as u8, direction, sender_is_client, l: Some(l), payloads: vec![(4, 4), (5, 5), (3, 3), (2, 6), (0, 1), (1, 2)], relay: 0, slow_receiver: false };
+                match judge(|| exec(&case), false, "C03:hang") {
+                    Outcome::Pass { nontrivial, labels } => {
+                        run.eval("small-l-table", nontrivial, vcore::hash64(&format!("{case:?}")));
+                        for lb in labels {
+                            run.label(lb);
+                        }
+                        if run.wants_sample("small-l-table") {
+                            run.sample("small-l-table", || serde_json::to_value(&case).unwrap());
+                        }
+                    }
+                    Outcome::Fail { signature, message } => {
+                        run.eval("small-l-table", false, 0);
+                        run.fail("datagrams", &signature, &message, serde_json::to_value(&case).unwrap());
+                    }
+                    Outcome::Inconclusive(w) => run.inconclusive(&w),
+                }
+            }
+        }
+    }
+    run.section_exhaustive("small-l-table", true, "L in 0..=20 x sender role x {wt, raw} receiver, probes at 0, 1, max-1, max, max+1, max+2");
+    prop_search(
+        run,
+        Search { check: "datagrams", cases: run.tier.pick(300, 5000), workers: 8, max_shrink_iters: 60 },
+        case_strategy,
+        |c| judge(|| exec(c), false, "C03:hang"),
+        |c| serde_json::to_value(c).unwrap(),
+    );
+    for l in ["L<=16", "L:mid", "L:65535", "L:disabled", "dir:wt-to-wt", "dir:wt-to-raw", "dir:raw-to-wt", "probe:max/max+1", "delivered", "relay"] {
+        run.essential(l);
+    }
+}
+
+pub fn replay(run: &Run, doc: &Value) -> bool {
+    let check = doc["check"].as_str().unwrap_or("");
+    if check == "codec-hook" {
+        let s = doc["case"]["session"].as_u64().unwrap_or(0);
+        let p = doc["case"]["payload"].as_str().and_then(vcore::unhex).unwrap_or_default();
+        run.eval(check, true, 1);
+        if let Ok(Err((a, b))) = vcore::catch(|| test_hook(s, &p)) {
+            run.fail(check, &a, &b, doc["case"].clone());
+        }
+        return true;
+    }
+    let Ok(case) = serde_json::from_value::<Case>(doc["case"].clone()) else {
+        return false;
+    };
+    run.eval("datagrams", true, 1);
+    for _ in 0..3 {
+        if let Outcome::Fail { signature, message } = judge(|| exec(&case), false, "C03:hang") {
+            run.fail("datagrams", &signature, &message, doc["case"].clone());
+            break;
+        }
+    }
+    true
 }
